@@ -600,9 +600,6 @@ def oracle_trace(case, impl, conv):
         if lhs != parse_prefix(cur):
             expect, why = 'refuse', 'step does not start from the current configuration'
             break
-        if want in seen:
-            expect, why = 'refuse-dup', 'same instantiated rewrite claimed twice (add_claim asserts)'
-            break
         seen.add(want)
         claims_exp.append(want)
         cur = ' '.join(flatten(rhs))
@@ -625,15 +622,18 @@ def oracle_trace(case, impl, conv):
             prev = sp[2]
         if expect == 'accept' and claims != claims_exp:
             probs.append(('claim-differs-from-substituted-rule', 'claims are not the conversions of the Kore-level instantiated rules, in order'))
-        if expect in ('refuse', 'refuse-dup') and len(claims) > len(claims_exp):
+        if expect == 'refuse' and len(claims) > len(claims_exp):
             probs.append(('bad-trace-accepted', f'trace accepted although: {why}'))
     elif impl['res'] == 'NONE':
         if impl.get('stage') == 'run' and expect == 'accept':
-            probs.append(('chained-trace-refused', 'trace refused although every step is a known rewrite rule applied where the previous one ended: '
-                          + impl.get('exc', '')))
-        if impl.get('stage') == 'run' and expect == 'refuse-dup':
-            probs.append(('duplicate-claim-refused', 'chained trace refused because the same instantiated rewrite occurs twice: '
-                          + impl.get('exc', '')))
+            if len(seen) < len(claims_exp):
+                probs.append(('duplicate-claim-refused', 'chained trace refused; the same instantiated rewrite occurs twice in it '
+                              '(a cycle): ' + impl.get('exc', '')))
+            else:
+                probs.append(('chained-trace-refused', 'trace refused although every step is a known rewrite rule applied where '
+                              'the previous one ended: ' + impl.get('exc', '')))
+    if expect == 'accept' and len(seen) < len(claims_exp):
+        why = 'repeats-a-step'
     return probs, expect, why
 
 
@@ -763,8 +763,8 @@ def run(tier, seed):
         if k < 2:
             R.sample(dict(conv=short(lines[i], 300), result=short(im['res'], 200)))
 
-    # ---- known findings: replay the refutation witnesses of Props/C20.v on the implementation
-    replay_witnesses(R)
+    # ---- refutation witnesses of Props/C20.v replayed on the implementation (known findings / fixed defects)
+    judge_witnesses(R, corpus_lines, impl[:nc])
 
     if mismatches:
         tie_broken = True
@@ -798,8 +798,28 @@ TRUSTED = [
 ]
 
 
-def replay_witnesses(R):
-    pass
+def judge_witnesses(R, corpus_lines, results):
+    """what the implementation does on the witnesses of the `_refuted` theorems (judged on its own output)"""
+    for (f, d), im in zip(corpus_lines, results):
+        res = im['res']
+        R.hist['witness:' + f[:2] + ':' + res[:4].strip()] = 1
+        if f.startswith('w1_') and res.startswith('OK '):
+            pat = res[3:].split(' | ')[0].split()
+            if pat[-1] == pat[-2] and pat[-1].startswith('m'):
+                R.violation('scope-keyed-by-name-only',
+                            'two distinct Kore variables X:S and X:T are converted to the same metavariable',
+                            dict(line=d['line'], impl=res, theorem='C20_scope_injective_by_name_and_sort_refuted'))
+        elif f.startswith('w2_') and res.startswith('OK '):
+            pat = res[3:].split(' | ')[0].split()
+            if pat.count('m100') >= 2:
+                R.violation('metavar-id-clash-sortparam-100',
+                            'the 101st element variable of a term and its first sort variable are both MetaVar(100)',
+                            dict(line=short(d['line'], 600), impl=short(res, 600), theorem='C20_scope_injective_unbounded_refuted'))
+        elif f.startswith('w3_'):
+            if not res.startswith('OK ') or len(split_list(res, 'C')) != 3:
+                R.violation('duplicate-claim-refused', 'the chained trace a => b => a => b is refused (it repeats a step): '
+                            + im.get('exc', ''), dict(line=d['line'], impl=short(res, 600), exc=im.get('exc'),
+                                                      theorem='C20_chained_accepted_pinned_refuted'))
 
 
 def replay(path):
